@@ -452,7 +452,7 @@ before `if !self.sent_safe_to_skip#0`
             if pre.s2n_inv(false) { Self::lemma_inv_after_examining(&pre, &mid, &aft, *block_hash, false); }
             if pre.s2n_inv(true) { Self::lemma_inv_after_examining(&pre, &mid, &aft, *block_hash, true); }
         }
-before `let nf_stake = self`
+blockafter `self.sent_safe_to_skip = true;`
         proof { Self::lemma_wf_transfer(&mid, &*self, Pending::Nothing); self.lemma_counted_is_stored(); self.lemma_bounds(Pending::Nothing); }
         let ghost mid2 = *self;
 after `let nf_votes = self.votes.notar_fallback_votes(block_hash);`
